@@ -70,6 +70,11 @@ def run(e: Engine, rep: Report):
 def fail_classes(e: Engine, ctx: Ctx, expr):
     """{'queue', 'relay'} subset named by the class expression of an
     isinstance test (a tuple names several)."""
+    # a module-level name for a tuple of classes
+    if isinstance(expr, ast.Name):
+        gv = getattr(ctx.func.module, 'globals', {}).get(expr.id)
+        if isinstance(gv, ast.Tuple):
+            expr = gv
     names = expr.elts if isinstance(expr, ast.Tuple) else [expr]
     out = set()
     for nm in names:
@@ -107,10 +112,15 @@ def r21(e: Engine, rep: Report):
             rep.error('anchor vanished: self.handoff(...) in %s' % where)
             continue
         rv = path_of(src[0].ast.targets[0], src[0].frame) if src else None
+        def iter_is_rv(n):
+            # (a helper's parameter stands for what it was given)
+            try:
+                return canon(n.ast.iter, n.frame) == rv
+            except Exception:
+                return path_of(n.ast.iter, n.frame) == rv
         scans = [n for n in g.of_kind('iter')
                  if isinstance(n.ast, (ast.For, ast.comprehension))
-                 and rv is not None and
-                 path_of(n.ast.iter, n.frame) == rv] + direct
+                 and rv is not None and iter_is_rv(n)] + direct
         anchor = src[0] if src else [
             c for c in g.calls() if c.ast is direct[0].ast.iter][0]
         bound = set()
@@ -187,9 +197,41 @@ def r21(e: Engine, rep: Report):
                                 isinstance(s2.ast.targets[0], ast.Name):
                             selected.add(path_of(s2.ast.targets[0],
                                                  s2.frame))
+        def picks(v, fr):
+            """the expression hands on what was selected: the name itself,
+            next(<selected>, default), <selected>[0]"""
+            if isinstance(v, ast.Call) and isinstance(v.func, ast.Name) and \
+                    v.func.id == 'next' and v.args:
+                return picks(v.args[0], fr)
+            while isinstance(v, ast.Subscript):
+                v = v.value
+            return path_of(v, fr) in selected if isinstance(
+                v, (ast.Name, ast.Attribute)) else False
         changed = True
         while changed:
             changed = False
+            for s2 in g.of_kind('stmt'):
+                # x = next(selected, None) / a helper returning it
+                if isinstance(s2.ast, ast.Assign) and \
+                        isinstance(s2.ast.targets[0], ast.Name):
+                    nm = path_of(s2.ast.targets[0], s2.frame)
+                    if nm not in selected and picks(s2.ast.value, s2.frame):
+                        selected.add(nm)
+                        changed = True
+                if isinstance(s2.ast, ast.Return) and \
+                        s2.ast.value is not None and \
+                        s2.frame.call is not None and \
+                        s2.frame.parent is not None and \
+                        picks(s2.ast.value, s2.frame):
+                    for s3 in g.of_kind('stmt'):
+                        if isinstance(s3.ast, ast.Assign) and \
+                                s3.ast.value is s2.frame.call and \
+                                s3.frame is s2.frame.parent and \
+                                isinstance(s3.ast.targets[0], ast.Name):
+                            nm = path_of(s3.ast.targets[0], s3.frame)
+                            if nm not in selected:
+                                selected.add(nm)
+                                changed = True
             for b in g.of_kind('bind'):
                 x = b.extra
                 if x.get('is_self') or x.get('arg') is None:
@@ -350,16 +392,37 @@ def r21(e: Engine, rep: Report):
                   if bad else None)
 
 
+def _spawn_nodes(e: Engine, g):
+    """call nodes that start a greenlet: <pool>.spawn(...), also through a
+    local alias of the bound method"""
+    out = []
+    for n in g.calls():
+        f = n.ast.func
+        if isinstance(f, ast.Name):
+            f, _ = common.origin(g, f, n.frame)
+        if isinstance(f, ast.Attribute) and f.attr == 'spawn':
+            out.append(n)
+    return out
+
+
 def r22(e: Engine, rep: Report):
     ctx = e.method_ctx(QUEUE, '_pool_imap')
-    g = e.build(ctx, raises=lambda b, n, r: set())
+    g = e.build(ctx, raises=lambda b, n, r: set(),
+                inline=e.inline_same_self(
+                    deny=['_pool_spawn', '_pool_run', '_holds_pool_slot']),
+                max_depth=3)
     where = ctx.func.qname
     rep.functions.add(where)
     # threads = map(pool.spawn, ...) / [pool.spawn(...) for ...]
     tv = None
     for n in g.of_kind('stmt'):
         if isinstance(n.ast, ast.Assign) and 'spawn' in ast.unparse(
-                n.ast.value):
+                n.ast.value) and n.frame is g.entry.frame and \
+                isinstance(n.ast.value, ast.Call) and \
+                ast.unparse(n.ast.value.func) in ('map', 'list', 'imap') or (
+                isinstance(n.ast, ast.Assign) and isinstance(
+                    n.ast.value, (ast.ListComp, ast.GeneratorExp)) and
+                'spawn' in ast.unparse(n.ast.value)):
             tv = path_of(n.ast.targets[0], n.frame)
     loops = [n for n in g.of_kind('iter') if isinstance(n.ast, ast.For) and
              tv is not None and path_of(n.ast.iter, n.frame) == tv]
@@ -378,7 +441,42 @@ def r22(e: Engine, rep: Report):
                   for sc in n.scopes)]
         for s2 in sp:
             per_iter.append((lp2, s2, path_of(s2.ast.targets[0], s2.frame)))
-    if per_iter and not loops:
+    # shape C: spawn and join in one iteration of a loop or comprehension,
+    # possibly through a helper that joins (spawn as an expression)
+    generic = []
+    if not loops and not per_iter:
+        for sp in _spawn_nodes(e, g):
+            ls = [sc for sc in sp.scopes if sc.kind == 'loop']
+            heads = [h for h in g.of_kind('iter') if ls and
+                     h.ast is ls[-1].ast]
+            if heads:
+                generic.append((heads[0], sp))
+    if generic:
+        for lp2, sp in generic:
+            counts = common.per_iteration_counts(
+                g, lp2, lambda n: 1 if n.kind == 'call' and
+                e.call_name(n) in ('join', 'get') else 0)
+            rep.check(bool(counts) and 0 not in counts, 'R2.2', where,
+                      'every spawned greenlet is joined',
+                      'an iteration that spawns a write can complete '
+                      'without join()/get(): its result is read before the '
+                      'write finished', loc=lp2.loc(),
+                      reason='join()/get() in every iteration that spawns')
+            rets = [n for n in g.of_kind('stmt')
+                    if isinstance(n.ast, ast.Return) and
+                    n.frame is g.entry.frame]
+            early = [r for r in rets
+                     if common_reach_without_done(g, r, lp2)]
+            brk = [n for n in g.of_kind('stmt')
+                   if isinstance(n.ast, ast.Break) and any(
+                       sc.kind == 'loop' and sc.ast is lp2.ast
+                       for sc in n.scopes)]
+            rep.check(not early and not brk and bool(rets), 'R2.2', where,
+                      'returns only after the join loop completed',
+                      '_pool_imap can return before every write was '
+                      'spawned and joined', loc=lp2.loc(),
+                      reason='loop exhausted before return')
+    elif per_iter and not loops:
         for lp2, s2, gv in per_iter:
             counts = common.per_iteration_counts(
                 g, lp2, lambda n: 1 if n.kind == 'call' and
@@ -573,6 +671,18 @@ def r24(e: Engine, rep: Report):
                         if isinstance(x, (ast.Name, ast.Attribute))):
                     dep.add(t)
                     changed = True
+        # a helper's parameter bound to a dependent name
+        for b in g.of_kind('bind'):
+            x = b.extra
+            if x.get('is_self') or x.get('arg') is None:
+                continue
+            new = '%s#%d' % (x['param'], b.frame.id)
+            if new not in dep and any(
+                    path_of(y, x['arg_frame']) in dep
+                    for y in ast.walk(x['arg'])
+                    if isinstance(y, (ast.Name, ast.Attribute))):
+                dep.add(new)
+                changed = True
     scans = [n for n in g.of_kind('iter')
              if isinstance(n.ast, (ast.For, ast.comprehension)) and
              any(path_of(x, n.frame) in dep for x in ast.walk(n.ast.iter)
@@ -620,8 +730,9 @@ def r24(e: Engine, rep: Report):
                     tname = path_of(s2.ast.targets[0], s2.frame)
                     if tname in picked:
                         continue
-                    if any(isinstance(y, ast.Name) and
-                           path_of(y, vf) in picked
+                    if any((isinstance(y, ast.Name) and
+                            path_of(y, vf) in picked) or
+                           comp[0].ast in getattr(y, 'generators', [])
                            for val, vf in common.values_of(
                                g, s2.ast.value, s2.frame)
                            for y in ast.walk(val)):
@@ -791,6 +902,13 @@ def r26(e: Engine, rep: Report):
                     and 'spawn' in f.attr)):
             sites.append((x, f))
     if not sites:
+        # the bound method put in a local first: spawn = pool.spawn
+        for a in walk_own(fn):
+            if isinstance(a, ast.Assign) and \
+                    isinstance(a.value, ast.Attribute) and (
+                        a.value.attr == 'spawn' or 'spawn' in a.value.attr):
+                sites.append((a, a.value))
+    if not sites:
         rep.error('anchor vanished: spawn sites in Queue._pool_imap')
         return
     c = common.merged_class(e, QUEUE)
@@ -839,20 +957,29 @@ def r27(e: Engine, rep: Report):
         rep.error('anchor vanished: module slimta.edge.wsgi')
         return
     n = 0
+    helpers = {}
+    for cq, c in e.p.classes.items():
+        if c.module is m:
+            helpers[cq] = common.private_helpers(e, cq)
+
+    def is_success_reply(x):
+        return isinstance(x, ast.Call) and \
+            ast.unparse(x.func).rpartition('.')[2] == 'Reply' and \
+            x.args and isinstance(x.args[0], ast.Constant) and \
+            str(x.args[0].value).startswith('2')
     for f in e.p.functions.values():
         if f.module is not m:
             continue
-        sites = []
-        for x in walk_own(f.node):
-            if isinstance(x, ast.Call) and \
-                    ast.unparse(x.func).rpartition('.')[2] == 'Reply' and \
-                    x.args and isinstance(x.args[0], ast.Constant) and \
-                    str(x.args[0].value).startswith('2'):
-                sites.append(x)
-        if not sites:
+        # a private helper is seen in the context of its callers
+        if f.cls is not None and f.name in helpers.get(f.cls.qname, ()):
             continue
         ctx = Ctx(f, f.cls.qname if f.cls is not None else None)
-        g = e.build(ctx, raises=lambda b, nn, r: set())
+        g = e.build(ctx, raises=lambda b, nn, r: set(),
+                    inline=e.inline_same_self(deny=['handoff']),
+                    max_depth=3)
+        sites = [nn.ast for nn in g.calls() if is_success_reply(nn.ast)]
+        if not sites:
+            continue
         rep.functions.add(f.qname)
         before = dataflow.must_events_before(
             g, lambda nn: ['handoff'] if nn.kind == 'call' and
